@@ -41,6 +41,7 @@ MANUAL = {
     "59f657c": [("stix2/v21/base.py", "        if kwargs.get('id') in (None, []):", "        if 'id' not in kwargs:")],
     "e01f0d6": [("stix2/patterns.py", "re.match(r\"^h'(([a-fA-F0-9]{2})*)'\\Z\", value)", "re.match(r\"^h'(([a-fA-F0-9]{2})+)'\\Z\", value)")],
     "83c0cb5": [("stix2/equivalence/pattern/transform/comparison.py", '        if ast.operator in ("MATCHES", "LIKE", "<", ">", "<=", ">="):', '        if ast.operator in ("<", ">", "<=", ">="):')],
+    "ff7a5eb": [("stix2/datastore/filters.py", "        elif isinstance(stix_obj_property, datetime) and \\\n                isinstance(self.value, (list, tuple, set, frozenset)):\n", "        elif False:\n")],
     "27b0e09": [("stix2/markings/utils.py", "    if isinstance(value, collections.abc.Mapping):\n\n        for item in iterpath(value, path):",
                  "    if isinstance(value, dict):\n\n        for item in iterpath(value, path):")],
 }
